@@ -18,6 +18,8 @@ Verdict(r) ==
          (* one request with several VTODOs run by one echsx process: the executor survives and every task *)
          (* meets its own contract, whatever happened to the tasks before it                                *)
          IF r.rc = 0 /\ \A k \in 1..Len(r.tasks) : ObservedOk(r.tasks[k], r.res[k]) THEN "ok" ELSE "bad"
+    [] r.e = "ReqDue" ->
+         IF r.rc = 0 /\ \A k \in 1..Len(r.tasks) : ObservedDueOk(r.tasks[k], r.res[k]) THEN "ok" ELSE "bad"
     [] OTHER -> "bad"
 N == Len(Tr)
 BadSet == {k \in 1..N : Verdict(Tr[k]) = "bad"}
